@@ -1,23 +1,61 @@
 (* C18 -- data-race freedom of the goroutine-safe APIs (publication patterns).
-   "Race" is defined by the vector-clock monitor of lib/Race.v (the DJIT+/TSan notion the
-   Go race detector implements); its equivalence with the relational happens-before of the
-   Go memory model is NOT proved here (DESIGN.md 5 C18, partial).
+   "Race" is the relational notion of the Go memory model (lib/RaceHB.v): two conflicting
+   plain accesses (same location, different threads, at least one write) not ordered by
+   happens-before = transitive closure of program order and synchronizes-with, where
+   Go's synchronisation (sequentially consistent atomics, Mutex, WaitGroup, channels, go
+   statement) is REPRESENTED by release/acquire events on sync objects: every acquire on
+   an object synchronizes with all earlier releases on it.  The vector-clock monitor of
+   lib/Race.v (the DJIT+/TSan algorithm the Go race detector implements) is proved to
+   decide exactly this notion:
+   c18_monitor_sound: whenever the monitor flags, the trace has a happens-before race.
+   c18_monitor_complete: if the trace (thread ids below the monitor's bound n) has a
+   happens-before race, the monitor flags.  c18_monitor_agrees: the two together.
 
-   c18_publication_race_free: for EVERY publication protocol instance (any list of plain
-   writes followed by any list of releases by one writer; any number of readers, each
-   acquiring one of the objects and reading only if it observed the release), and EVERY
-   schedule, the monitor never reports a race.
+   c18_publication_race_free / c18_publication_hb_race_free: for EVERY publication protocol
+   instance (any list of plain writes followed by any list of releases by one writer; any
+   number of readers, each acquiring one of the objects and reading only if it observed
+   the release), and EVERY schedule, the monitor never reports a race / the generated
+   trace of memory events has no happens-before race (c18_publication_trace: the machine's
+   monitor state is the monitor run on that trace).
    c18_instances_race_free: the concrete patterns of lixianmin/got (cachex Future, ants
    task result, taskx callback result, queue node value, wheel slot, WaitClose.closeChan)
    are such instances; c18_rows_in_table: the source rows they were labelled from are rows
    of the access table, which the check regenerates from /repo and compares on every run.
-   c18_lock_discipline_race_free: accesses made only inside critical sections of one mutex
-   (cachex shard maps, WaitClose fields under wc.mutex) never race.
+   c18_lock_discipline_race_free / c18_lock_discipline_hb_race_free: accesses made only
+   inside critical sections of one mutex (cachex shard maps, WaitClose fields under
+   wc.mutex) never race.
    c18_*_refuted: the pre-fix patterns (status check reading err without having observed
-   the completion; two unordered writers of the task result) do race. *)
+   the completion; two unordered writers of the task result) do race, in both senses. *)
 From Coq Require Import String.
-From Got Require Import Base Race RaceProofs RaceInst.
+From Got Require Import Base Race RaceProofs RaceInst RaceHB RaceHBProofs.
 Local Open Scope nat_scope.
+
+(* ---- the monitor decides the relational happens-before notion of a data race ---- *)
+Theorem c18_monitor_sound :
+  forall (n : nat) (tr : list (nat * rc_ev)),
+    rc_raced (rc_run n tr) = true -> hb_race tr.
+Proof. exact hbp_sound. Qed.
+Print Assumptions c18_monitor_sound.
+
+Theorem c18_monitor_complete :
+  forall (n : nat) (tr : list (nat * rc_ev)),
+    hb_wf n tr -> hb_race tr -> rc_raced (rc_run n tr) = true.
+Proof. exact hbp_complete. Qed.
+Print Assumptions c18_monitor_complete.
+
+Theorem c18_monitor_agrees :
+  forall (n : nat) (tr : list (nat * rc_ev)),
+    hb_wf n tr -> (rc_raced (rc_run n tr) = false <-> ~ hb_race tr).
+Proof. exact hbp_agree. Qed.
+Print Assumptions c18_monitor_agrees.
+
+(* what "no flag" means: every conflicting pair is ordered by happens-before *)
+Theorem c18_monitor_no_flag_ordered :
+  forall (n : nat) (tr : list (nat * rc_ev)),
+    hb_wf n tr -> rc_raced (rc_run n tr) = false ->
+    forall i j, i < j -> j < length tr -> hb_conflict tr i j -> hb_hb tr i j.
+Proof. exact hbp_norace_ordered. Qed.
+Print Assumptions c18_monitor_no_flag_ordered.
 
 Theorem c18_publication_race_free :
   forall (p : rc_pub) (sched : list nat),
@@ -31,6 +69,25 @@ Theorem c18_instances_race_free :
 Proof. apply Forall_forall. intros i _. apply pb_race_free. Qed.
 Print Assumptions c18_instances_race_free.
 
+(* the machine's monitor state is the monitor run on the trace of memory events the
+   schedule generates; that trace is well-formed and has no happens-before race *)
+Theorem c18_publication_trace :
+  forall (unguarded : bool) (p : rc_pub) (sched : list nat),
+    ps_mon (rc_prun unguarded p sched) = rc_run (rc_nthreads p) (hb_ptrace unguarded p sched)
+    /\ hb_wf (rc_nthreads p) (hb_ptrace unguarded p sched).
+Proof. exact hbp_ptrace_spec. Qed.
+Print Assumptions c18_publication_trace.
+
+Theorem c18_publication_hb_race_free :
+  forall (p : rc_pub) (sched : list nat), ~ hb_race (hb_ptrace false p sched).
+Proof. exact hbp_pub_hb_race_free. Qed.
+Print Assumptions c18_publication_hb_race_free.
+
+Theorem c18_instances_hb_race_free :
+  Forall (fun i => forall sched, ~ hb_race (hb_ptrace false (snd (fst i)) sched)) ri_instances.
+Proof. apply Forall_forall. intros i _. apply hbp_pub_hb_race_free. Qed.
+Print Assumptions c18_instances_hb_race_free.
+
 Theorem c18_rows_in_table : ri_rows_in_table = true.
 Proof. vm_compute. reflexivity. Qed.
 Print Assumptions c18_rows_in_table.
@@ -42,6 +99,19 @@ Theorem c18_lock_discipline_race_free :
     rc_raced (ls_mon (rc_lrun progs sched)) = false.
 Proof. exact lk_race_free. Qed.
 Print Assumptions c18_lock_discipline_race_free.
+
+Theorem c18_lock_discipline_trace :
+  forall (progs : list (list (list (bool * nat)))) (sched : list nat),
+    ls_mon (rc_lrun progs sched) = rc_run (length progs) (hb_ltrace progs sched)
+    /\ hb_wf (length progs) (hb_ltrace progs sched).
+Proof. exact hbp_ltrace_spec. Qed.
+Print Assumptions c18_lock_discipline_trace.
+
+Theorem c18_lock_discipline_hb_race_free :
+  forall (progs : list (list (list (bool * nat)))) (sched : list nat),
+    ~ hb_race (hb_ltrace progs sched).
+Proof. exact hbp_lock_hb_race_free. Qed.
+Print Assumptions c18_lock_discipline_hb_race_free.
 
 Theorem c18_lock_rows_in_table : ri_lock_rows_in_table = true.
 Proof. vm_compute. reflexivity. Qed.
@@ -57,6 +127,15 @@ Theorem c18_two_writers_refuted :
 Proof. exact rc_two_writers_race. Qed.
 Print Assumptions c18_two_writers_refuted.
 
+Theorem c18_unguarded_status_hb_refuted :
+  hb_race (hb_ptrace true {| pb_ws := [7]; pb_os := [1]; pb_readers := [(1, [7])] |} [0; 1; 1]).
+Proof. exact hbp_unguarded_hb_race. Qed.
+Print Assumptions c18_unguarded_status_hb_refuted.
+
+Theorem c18_two_writers_hb_refuted : hb_race [(0, RWrite 7); (1, RWrite 7)].
+Proof. exact hbp_two_writers_hb_race. Qed.
+Print Assumptions c18_two_writers_hb_refuted.
+
 (* non-vacuity: in the Future instance a schedule exists where one reader's guard fails
    (it came too early), another reader passes it and performs both reads, and the status
    reader reads err -- with no race *)
@@ -68,3 +147,20 @@ Example c18_nonvacuous :
   nth_error (ps_rpcs s) 3 = Some (RPReading 1) /\
   rc_raced (ps_mon s) = false.
 Proof. vm_compute. repeat split. Qed.
+
+(* non-vacuity of the relational definitions, proved directly from them (no monitor):
+   release/acquire publication orders the write before the read; two bare writers are
+   unordered; and through the equivalence: an acquire that precedes the release does not
+   synchronise (race), a chain of read-modify-writes over three threads does (no race);
+   the trace of the schedule of c18_nonvacuous contains all four kinds of event *)
+Example c18_hb_nonvacuous :
+  hb_hb [(0, RWrite 7); (0, RRel 1); (1, RAcq 1); (1, RRead 7)] 0 3 /\
+  ~ hb_hb [(0, RWrite 7); (1, RWrite 7)] 0 1 /\
+  hb_race [(1, RAcq 1); (0, RWrite 7); (0, RRel 1); (1, RRead 7)] /\
+  ~ hb_race [(0, RWrite 7); (0, RAcqRel 1); (1, RAcqRel 1); (1, RRel 2); (2, RAcq 2); (2, RWrite 7)] /\
+  length (hb_ptrace false ri_future [1; 0; 0; 0; 3; 3; 0; 0; 2; 2; 2; 4; 4]) = 12.
+Proof.
+  split; [exact hbp_ex_publication_ordered|]. split; [exact hbp_ex_two_writers_unordered|].
+  split; [exact hbp_ex_early_acquire_races|]. split; [exact hbp_ex_rmw_chain_race_free|].
+  vm_compute. reflexivity.
+Qed.
